@@ -97,6 +97,9 @@ def coq_case(c):
     if c.get("lmodel"):
         from harness.props import c01_full as F
         return f"(CL {F.coq_lexpr(c['e'])})"
+    if c.get("xmodel"):
+        from harness.props import c01_full as F
+        return f"(CX {F.coq_xexpr(c['e'])} {F.coq_expr(c['e'])})"
     if c.get("full"):
         from harness.props import c01_full as F
         return f"(CF {F.coq_expr(c['e'])})"
@@ -283,6 +286,16 @@ def _cases(tier, rng):
             continue
         seen.add(key)
         yield {"kind": "loopfrag:" + kind, "full": True, "lmodel": True, "e": e, "opts": list(rng.choice(OPTS)),
+               "lisp": F.to_lisp(e)}
+    # the exception fragment (simulation theorem of C01X): dedicated programs + every mechanism that fits
+    xps = [("exc", e) for e in F.exc_programs(rng, 60 if tier == "quick" else 1500)]
+    xps += [("mech:" + k, e) for k, e in F.hazard_programs() if F.in_x_fragment(e) and F.has_try(e)]
+    for kind, e in xps:
+        key = "X" + repr(e)
+        if key in seen:
+            continue
+        seen.add(key)
+        yield {"kind": "excfrag:" + kind, "full": True, "xmodel": True, "e": e, "opts": list(rng.choice(OPTS)),
                "lisp": F.to_lisp(e)}
     n = 400 if tier == "quick" else 8000
     for _ in range(n):
